@@ -150,7 +150,14 @@ def main():
     nonrepro = []
     per_key = {}
     total_viol = 0
+    tried = {}
     for n, v in enumerate(violations):
+        key0 = v.get('key')
+        total_viol += 1
+        # replay budget per kind of counterexample: what is listed is always replayed first; the rest is counted
+        if per_key.get(key0, 0) >= 5 or tried.get(key0, 0) >= 25 or (key0 in known_keys and key0 in seen_known and tried.get(key0, 0) >= 3):
+            continue
+        tried[key0] = tried.get(key0, 0) + 1
         try:
             ok, detail = mod.replay(v)
         except Exception as e:
@@ -163,9 +170,8 @@ def main():
             seen_known.setdefault(key, (v, detail))
             continue
         per_key[key] = per_key.get(key, 0) + 1
-        total_viol += 1
-        if per_key[key] > 5 or reported >= 40:
-            continue            # further counterexamples of the same kind are counted, not listed
+        if reported >= 40:
+            continue
         path = os.path.join(HERE, 'out', 'replay', f'{pid}-{reported}.py')
         with open(path, 'w') as f:
             f.write('import sys, json\nsys.path.insert(0, %r)\nimport importlib\nmod = importlib.import_module(%r)\n'
